@@ -41,6 +41,8 @@ def mk_tables():
         "upperG": dict(elems=up_e, pseudoRaw=up_p, grain="GRAIN", surf="G", repl=repl),
         "mc_default": dict(elems=mc_de, pseudoRaw=mc_dp, grain="GRAIN", surf="#", repl={}),
         "mc_upper": dict(elems=mc_ue, pseudoRaw=mc_up, grain="GRAIN", surf="G", repl=mc_repl),
+        # a user configuration with ONE of the two lists empty: nothing but these six symbols is known, labels included
+        "elems_only": dict(elems=["e", "H", "C", "N", "O", "S"], pseudoRaw=[], grain="GRAIN", surf="#", repl={}),
     }
     for t in T.values():
         t["pseudo"] = [re.sub(r"\\(.)", r"\1", p) for p in t["pseudoRaw"]]
@@ -107,7 +109,7 @@ def random_tokens(rng, t, maxtok):
     n = rng.randint(1, maxtok)
     body = []
     for k in range(n):
-        if rng.random() < 0.2:
+        if t["pseudo"] and rng.random() < 0.2:
             body.append({"sym": rng.choice(t["pseudo"]), "cnt": 0, "kind": "pseudo"})
         else:
             body.append({"sym": rng.choice(t["elems"]), "cnt": rng.choice([0, 0, 2, 3, 10, 12]), "kind": "elem"})
@@ -180,9 +182,14 @@ def main(ctx: Ctx) -> int:
     # (C) random longer names over the full lists, charges, garbage
     nrand = 400 if ctx.quick else 8000
     for k in range(nrand):
-        table = rng.choice(["default", "default", "leedsG", "upper", "upperG"])
-        toks = random_tokens(rng, T[table], 4)
+        table = rng.choice(["default", "default", "leedsG", "upper", "upperG", "elems_only"])
+        # (under the six-symbol table half of the names are spelled with the DEFAULT lists: most of them must be refused)
+        foreign = table == "elems_only" and rng.random() < 0.5
+        toks = random_tokens(rng, T["default" if foreign else table], 4)
         ch = rng.choice(["", "", "+", "-", "++", "--", "+++", "++++"])
+        if foreign:      # no intended composition under THIS table: only conformance with the specification's parser is asserted
+            add(table, encode(toks) + ch, [], origin="foreign spelling")
+            continue
         add(table, encode(toks) + ch, toks, origin="random")
         if k % 6 == 0:
             nm = encode(toks)
